@@ -158,6 +158,34 @@ func (in *Interp) vsymCall(name string, args []Value, c *ssa.CallCommon) []Value
 	case "LogStop":
 		in.logOn = false
 		return nil
+	case "AssertNoRaces":
+		label := strArg(args[0])
+		races := in.findRaces()
+		if len(races) == 0 {
+			in.obligation(label, "assert", ts.True())
+			return nil
+		}
+		for i, r := range races {
+			if i >= 5 {
+				break
+			}
+			in.notes = appendNote(in.notes, fmt.Sprintf("conflicting accesses on %s slot %d by goroutine instances %d and %d", r.a.obj.name, r.a.slot, r.a.gor, r.b.gor))
+			// a race exists iff both accesses can happen: pc ∧ guard_a ∧ guard_b satisfiable
+			in.obligation(label, "assert", ts.Not(ts.And(r.a.guard, r.b.guard)))
+		}
+		return nil
+	case "GlobalWrites":
+		n := 0
+		for _, e := range in.acclog {
+			if e.write && e.obj.kind == "global" {
+				n++
+				in.notes = appendNote(in.notes, "write to package-level variable "+e.obj.name)
+			}
+		}
+		return one(ts.IntConst64(in.intSort(), int64(n)))
+	case "JoinBalance":
+		// sends minus receives over all channels: 0 when every goroutine's token was collected
+		return one(ts.IntConst64(in.intSort(), int64(in.sendTotal-in.recvTotal)))
 	case "Summarise":
 		in.summaries[strArg(args[0])] = true
 		return nil
